@@ -77,8 +77,14 @@ fn oracle(model: &mut Model, h: &History) -> Option<(usize, String)> {
     let mut bad: Option<(usize, String)> = None;
     // the rendered text of every note after the previous operation
     let mut prev: std::collections::BTreeMap<String, String> = Default::default();
-    let states = hist::run_impl(h, |step, g| {
+    hist::run_impl_resilient(h, |step, g, dirty| {
         if bad.is_some() {
+            return;
+        }
+        // while a note's latest update has panicked its tree may be half built (the panic is C03's finding D9 / D21):
+        // the forest is judged again once that note has been updated successfully
+        if dirty {
+            prev.clear();
             return;
         }
         let mut p = check_graph(model, g);
@@ -106,7 +112,7 @@ fn oracle(model: &mut Model, h: &History) -> Option<(usize, String)> {
                 now.insert(k.to_string(), t);
             }
         }
-        if step > 0 {
+        if step > 0 && !prev.is_empty() {
             for (k, before) in &prev {
                 if Some(k) != touched.as_ref() {
                     match now.get(k) {
@@ -122,7 +128,6 @@ fn oracle(model: &mut Model, h: &History) -> Option<(usize, String)> {
             bad = Some((step, p.join(" | ")));
         }
     });
-    let _ = states;
     bad
 }
 
@@ -153,7 +158,18 @@ pub fn run(ctx: &Ctx, model: &mut Model, rep: &mut Report) {
     for i in 0..n {
         let mut r = Rng::for_case(ctx.seed ^ 0xC20, i as u64);
         let wf = !r.chance(1, 6);
-        let h = hist::gen_history(&mut r, wf, 6);
+        let mut h = hist::gen_history(&mut r, wf, 6);
+        // an edit that the builder rejects with a panic (a list item starting with a quote: finding D9), then a good
+        // edit of the same note: the server catches the panic and keeps serving, the forest must be whole again
+        if i % 7 == 3 && !h.import.is_empty() {
+            let k = h.import[r.below(h.import.len())].0.clone();
+            h.steps.push((k.clone(), "# broken\n\n- > quoted\n\ntail\n".to_string()));
+            if r.chance(1, 2) {
+                let other = h.import[0].0.clone();
+                h.steps.push((other, "# another note edited meanwhile\n".to_string()));
+            }
+            h.steps.push((k, "# recovered\n\ntext [link](a)\n".to_string()));
+        }
         let text = format!("{:?}", h);
         rep.case(&text, h.steps.len() >= 1 || h.import.len() >= 2);
         rep.count(&format!("steps_{}", h.steps.len()));
